@@ -2,7 +2,9 @@
    TestResult (82-222), TextTestResult.stopTestRun (1176-1247), MultiTestResult (1087-1173),
    ThreadsafeForwardingResult (1296-1402), ExtendedToOriginalDecorator (1448-1632),
    TestResultDecorator / Tagger (1970-2054), ExtendedToStreamDecorator + StreamFailFast + StreamSummary
-   (467-493, 986-1067, 1635-1792), TestControl (1070-1084), and run.py's exit status.
+   (467-493, 986-1067, 1635-1792), TestControl (1070-1084), and run.py's exit status; plus
+   ExtendedToOriginalDecorator over a foreign result (unittest.TestResult, the 2.6 / 2.7 / extended / Twisted
+   doubles of testtools.testresult.doubles, any object with that interface) described by a capability record.
    Executable definitions only. *)
 From Coq Require Import String.
 From TT Require Import Lib.Base Gen.Resulttabs.
@@ -16,12 +18,13 @@ Definition bad (k : kind) : bool := match k with KError | KFailure | KUxsuccess 
 
 Definition tid := nat.
 
-(* Calls.  Block k t is what a ThreadsafeForwardingResult delivers for one outcome:
-   startTest(t); add<k>(t); stopTest(t), under its semaphore.  StopAt p: stop() called on the object at
-   path p of the stack (child indices; [] is the outermost object). *)
+(* Calls.  Outcome k d t: add<k>(t, ...) - d = true: called with a details dict (details=...), d = false:
+   called the original way (exc_info / reason / nothing).  Block k d t is what a ThreadsafeForwardingResult
+   delivers for one outcome: startTest(t); add<k>(t, ...); stopTest(t), under its semaphore.  StopAt p: stop()
+   called on the object at path p of the stack (child indices; [] is the outermost object). *)
 Inductive op :=
-| StartRun | StartTest (t : tid) | Outcome (k : kind) (t : tid) | StopTest (t : tid) | StopRun
-| Block (k : kind) (t : tid)
+| StartRun | StartTest (t : tid) | Outcome (k : kind) (d : bool) (t : tid) | StopTest (t : tid) | StopRun
+| Block (k : kind) (d : bool) (t : tid)
 | StopAt (p : list nat).
 
 (* ---------- TestResult / TextTestResult ---------- *)
@@ -66,8 +69,8 @@ Definition tr_step (r : tr) (o : op) : tr :=
   | StartRun => {| errors := []; failures := []; uxs := []; tests_run := 0; tr_stopped := false;
                    tr_ff := tr_ff r; tr_text := tr_text r; tr_out := tr_out r |}
   | StartTest _ => tr_start_test r
-  | Outcome k t => tr_outcome r k t
-  | Block k t => tr_outcome (tr_start_test r) k t
+  | Outcome k _ t => tr_outcome r k t          (* details or exc_info: the same lists, the same failfast *)
+  | Block k _ t => tr_outcome (tr_start_test r) k t
   | StopTest _ | StopAt _ => r
   | StopRun => if tr_text r then
                  {| errors := errors r; failures := failures r; uxs := uxs r; tests_run := tests_run r;
@@ -106,17 +109,63 @@ Definition e2s_step (e : e2s) (o : op) : e2s :=
   match o with
   | StartRun => {| e_errs := 0; e_open := []; e_stopped := false; e_ff := e_ff e |}
   | StartTest t => e2s_start_test e t
-  | Outcome k t => e2s_outcome e k t
-  | Block k t => e2s_outcome (e2s_start_test e t) k t
+  | Outcome k _ t => e2s_outcome e k t
+  | Block k _ t => e2s_outcome (e2s_start_test e t) k t
   | StopTest _ | StopAt _ => e
   | StopRun => {| e_errs := if summary_flush_counts then e_errs e + length (e_open e) else e_errs e;
                   e_open := []; e_stopped := e_stopped e; e_ff := e_ff e |}
+  end.
+
+(* ---------- ExtendedToOriginalDecorator over a foreign result ---------- *)
+(* What the foreign object can do, probed by the harness on the live class (unittest.TestResult,
+   doubles.Python26TestResult / Python27TestResult / ExtendedTestResult / TwistedTestResult). *)
+Record fcaps := {
+  fc_uxs : bool;          (* has addUnexpectedSuccess (else the decorator degrades to addFailure) *)
+  fc_uxs_details : bool;  (* ... which accepts details= (else TypeError -> called again without) *)
+  fc_details : bool;      (* addError / addFailure accept details= (else converted to an exc_info) *)
+  fc_failfast : bool;     (* has a failfast attribute (else the decorator's own _failfast is used) *)
+  fc_acts : bool;         (* its own addError / addFailure / addUnexpectedSuccess call stop() when its failfast is set *)
+  fc_stop : bool;         (* has stop() / shouldStop (else the decorator's own _shouldStop is used) *)
+  fc_uxs_counts : bool;   (* its wasSuccessful() is False after its addUnexpectedSuccess *)
+  fc_resets : bool        (* its startTestRun makes wasSuccessful() True again *)
+}.
+(* the decorator and the object as one unit: failfast / shouldStop as read through the decorator (the
+   object's attribute if it has one, else the decorator's _failfast / _shouldStop); nobody resets
+   shouldStop at startTestRun *)
+Record fo := { fo_caps : fcaps; fo_ff : bool; fo_stopped : bool; fo_bad : bool }.
+Definition fo_new (c : fcaps) : fo := {| fo_caps := c; fo_ff := false; fo_stopped := false; fo_bad := false |}.
+Definition fo_ok (f : fo) : bool := negb (fo_bad f).
+Definition fo_stop (f : fo) : fo :=
+  {| fo_caps := fo_caps f; fo_ff := fo_ff f; fo_stopped := true; fo_bad := fo_bad f |}.
+Definition fo_setff (b : bool) (f : fo) : fo :=
+  {| fo_caps := fo_caps f; fo_ff := b; fo_stopped := fo_stopped f; fo_bad := fo_bad f |}.
+(* the method of the foreign object that finally receives the outcome *)
+Definition fo_lands (c : fcaps) (k : kind) : kind :=
+  match k with KUxsuccess => if fc_uxs c then KUxsuccess else KFailure | _ => k end.
+Definition fo_outcome (f : fo) (k : kind) (d : bool) : fo :=
+  let c := fo_caps f in
+  let m := fo_lands c k in
+  (* the object's own failfast handling: only if the attribute lives on the object *)
+  let self_stop := bad m && fc_failfast c && fc_acts c && fo_ff f in
+  (* ExtendedToOriginalDecorator.addError / addFailure / addUnexpectedSuccess: finally: if self.failfast: self.stop()
+     - on every path: details accepted, details refused (TypeError) and converted, no details, degraded *)
+  let deco_stop := bad k && fo_ff f in
+  {| fo_caps := c; fo_ff := fo_ff f;
+     fo_stopped := fo_stopped f || self_stop || deco_stop;
+     fo_bad := fo_bad f || match m with KError | KFailure => true | KUxsuccess => fc_uxs_counts c | _ => false end |}.
+Definition fo_step (f : fo) (o : op) : fo :=
+  match o with
+  | StartRun => {| fo_caps := fo_caps f; fo_ff := fo_ff f; fo_stopped := fo_stopped f;
+                   fo_bad := if fc_resets (fo_caps f) then false else fo_bad f |}
+  | Outcome k d _ | Block k d _ => fo_outcome f k d
+  | _ => f
   end.
 
 (* ---------- stacks ---------- *)
 Inductive adapter :=
 | ATR (ff txt : bool)           (* TestResult(failfast=ff) / TextTestResult(stream, failfast=ff) *)
 | AE2S                          (* ExtendedToStreamDecorator(stream sink) *)
+| AFor (c : fcaps)              (* ExtendedToOriginalDecorator(a foreign result with capabilities c) *)
 | AMulti (l : list adapter)     (* MultiTestResult over the members *)
 | ATFR (a : adapter)            (* ThreadsafeForwardingResult *)
 | AE2O (a : adapter)            (* ExtendedToOriginalDecorator *)
@@ -128,6 +177,7 @@ Inductive adapter :=
 Inductive node :=
 | NTR (r : tr)
 | NE2S (e : e2s)
+| NFor (f : fo)
 | NMulti (l : list (bool * node))
 | NTFR (ff : bool) (e : bool) (x : node)     (* own (inert) failfast attribute; self.result = E2O(x) *)
 | NE2O (e : bool) (x : node)
@@ -139,6 +189,7 @@ Fixpoint get_ff (n : node) : bool :=
   match n with
   | NTR r => tr_ff r
   | NE2S e => e_ff e
+  | NFor f => fo_ff f
   | NMulti l => match l with ec :: _ => if has_ff (snd ec) then get_ff (snd ec) else fst ec | [] => false end
   | NTFR ff _ _ => ff
   | NE2O e x => if has_ff x then get_ff x else e
@@ -151,6 +202,7 @@ Fixpoint set_ff (b : bool) (n : node) : node :=
   match n with
   | NTR r => NTR (tr_setff b r)
   | NE2S e => NE2S (e2s_setff b e)
+  | NFor f => NFor (fo_setff b f)
   | NMulti l => NMulti (map (fun ec => if has_ff (snd ec) then (fst ec, set_ff b (snd ec)) else (b, snd ec)) l)
   | NTFR _ e x => NTFR b e x
   | NE2O e x => if has_ff x then NE2O e (set_ff b x) else NE2O b x
@@ -163,6 +215,7 @@ Fixpoint stop (n : node) : node :=
   match n with
   | NTR r => NTR (tr_stop r)
   | NE2S e => NE2S (e2s_stop e)
+  | NFor f => NFor (fo_stop f)
   | NMulti l => NMulti (map (fun ec => (fst ec, stop (snd ec))) l)
   | NTFR ff e x => NTFR ff e (stop x)
   | NE2O e x => NE2O e (stop x)
@@ -173,6 +226,7 @@ Fixpoint should_stop (n : node) : bool :=
   match n with
   | NTR r => tr_stopped r
   | NE2S e => e_stopped e
+  | NFor f => fo_stopped f
   | NMulti l => existsb (fun ec => should_stop (snd ec)) l
   | NTFR _ _ x | NE2O _ x | NDeco _ x => should_stop x
   end.
@@ -181,12 +235,13 @@ Fixpoint was_ok (n : node) : bool :=
   match n with
   | NTR r => tr_ok r
   | NE2S e => e2s_ok e
+  | NFor f => fo_ok f
   | NMulti l => forallb (fun ec => was_ok (snd ec)) l
   | NTFR _ _ x | NE2O _ x | NDeco _ x => was_ok x
   end.
 
 Definition is_bad_call (o : op) : bool :=
-  match o with Outcome k _ | Block k _ => bad k | _ => false end.
+  match o with Outcome k _ _ | Block k _ _ => bad k | _ => false end.
 
 (* one call arriving at a node (not StopAt).  MultiTestResult.startTestRun also re-assigns every member's
    failfast to the first member's; on every state reachable here the members already agree (Proof.C04
@@ -195,6 +250,7 @@ Fixpoint step (n : node) (o : op) : node :=
   match n with
   | NTR r => NTR (tr_step r o)
   | NE2S e => NE2S (e2s_step e o)
+  | NFor f => NFor (fo_step f o)
   | NMulti l =>
       NMulti (map (fun ec => let c' := step (snd ec) o in
                              (* ExtendedToOriginalDecorator.add*: finally: if self.failfast: self.stop() *)
@@ -202,7 +258,7 @@ Fixpoint step (n : node) (o : op) : node :=
                              then (fst ec, stop c') else (fst ec, c')) l)
   | NTFR ff e x =>
       let o' := match o with
-                | Outcome k t => Some (Block k t)
+                | Outcome k d t => Some (Block k d t)
                 | StartTest _ | StopTest _ => None          (* kept local *)
                 | _ => Some o
                 end in
@@ -222,7 +278,7 @@ Fixpoint stop_at (p : list nat) (n : node) : node :=
   | [] => stop n
   | j :: q =>
       match n with
-      | NTR _ | NE2S _ => n
+      | NTR _ | NE2S _ | NFor _ => n
       | NMulti l =>
           NMulti ((fix go (l : list (bool * node)) (j : nat) : list (bool * node) :=
                      match l, j with
@@ -244,6 +300,7 @@ Fixpoint build (a : adapter) : node :=
   match a with
   | ATR ff txt => NTR (tr_new ff txt)
   | AE2S => NE2S e2s_new
+  | AFor c => NFor (fo_new c)
   | AMulti l => NMulti (map (fun x => e2o_set false (false, build x)) l)
   | ATFR x => NTFR false false (build x)
   | AE2O x => NE2O false (build x)
@@ -259,6 +316,7 @@ Fixpoint leaf_stops (n : node) : list bool :=
   match n with
   | NTR r => [tr_stopped r]
   | NE2S e => [e_stopped e]
+  | NFor f => [fo_stopped f]
   | NMulti l => flat_map (fun ec => leaf_stops (snd ec)) l
   | NTFR _ _ x | NE2O _ x | NDeco _ x => leaf_stops x
   end.
@@ -266,6 +324,7 @@ Fixpoint leaf_outs (n : node) : list (list summary) :=
   match n with
   | NTR r => [tr_out r]
   | NE2S e => [[]]
+  | NFor _ => [[]]
   | NMulti l => flat_map (fun ec => leaf_outs (snd ec)) l
   | NTFR _ _ x | NE2O _ x | NDeco _ x => leaf_outs x
   end.
